@@ -18,7 +18,7 @@ Record wparm := mkW {
 Definition postW (P : wparm) (x : post) : nat := wJ P (snd x) + 5.
 Definition postsW P (l : list post) : nat := sumf (postW P) l.
 Definition opW (P : wparm) (o : op) : nat :=
-  match o with OAdd j | OTry j => wJ P j + 5 | OJoinJobs => 2 | OResize n => wB P + 3 + 2 * n end.
+  match o with OAdd j | OTry j => wJ P j + 5 | OJoinJobs => 2 | OResize n => wB P + wB P + 4 + 2 * n end.
 Definition opsW P (l : list op) : nat := sumf (opW P) l.
 
 Definition WL2 P := wB P + 5.                         (* a worker at the lock after its job *)
@@ -42,8 +42,9 @@ Definition phi (cfg : config) (P : wparm) (th : thread) : nat :=
   | JWait => 1 + rest cfg P th
   | JAsleep => rest cfg P th
   | JUnlock => 1 + rest cfg P th
-  | RLock n => wB P + 3 + 2 * n + rest cfg P th
-  | RBcast => wB P + 2 + rest cfg P th
+  | RLock n => wB P + wB P + 4 + 2 * n + rest cfg P th
+  | RBcast => wB P + wB P + 3 + rest cfg P th
+  | RBcastPush => wB P + 2 + rest cfg P th
   | RUnlock => 1 + rest cfg P th
   | MJoin c => (c_K cfg - c) + 1 + FLW P
   | FLock => FLW P
